@@ -282,9 +282,11 @@ CLAIMS['C03'].update(
     text=CLAIMS['C03']['text'] + ' Every add-with-carry of the assembly routines consumes a cleared flag or the carry of an addition chain (a stale flag is reported).')
 CLAIMS['C09'].update(
     text=CLAIMS['C09']['text'] + ' A canonicality helper that compares raw coordinates with q must read every 48-byte coordinate slot of the instantiation.')
+CLAIMS['C02'].update(
+    text=CLAIMS['C02']['text'] + ' BigInt::is_zero returns true only if every bit of the value is zero (per-bit coverage of the tests and or-accumulations through any view of the storage union).')
 CLAIMS['C06'].update(
     technique=CLAIMS['C06']['technique'] + '; exponent-domain interpretation of the plain double-and-add (R-POLY/doubleadd)',
-    text=CLAIMS['C06']['text'] + ' Projective::multiply_doubleadd_restrict (every instantiation) computes sum_i 2^i bit_i(k) base over exactly the bits 0..highest_bit, identically in the scalar bits (group element as leaf: copy(zero) -> 0, multiply2 -> *2, add -> +).')
+    text=CLAIMS['C06']['text'] + ' Projective::multiply_doubleadd_restrict (every instantiation) computes sum_i 2^i bit_i(k) base over exactly the bits 0..highest_bit, identically in the scalar bits (group element as leaf: copy(zero) -> 0, multiply2 -> *2, add -> +; word-at-a-time reads of the scalar are symbolic words and both outcomes of every zero-word test are run).')
 for _p in CLAIMS:
     CLAIMS[_p]['note'] = (CLAIMS[_p].get('note') or '') + ' Functions and local names that the tree the rule tables were written for does not have (jpv/baseline_functions.txt, baseline_locals.txt), closures, pointer walks, infinite-loop / continue / leading-break forms and predicate helpers are rewritten exactly into the forms the tables know before the rules run (jpv/normalise.py, jpv/cfg.py); a routine restructured beyond that is declined (exit 2), not reported.'
 
